@@ -461,14 +461,16 @@ PROPERTIES["C03"] = {
     "assumptions": [],
 }
 PROPERTIES["C06"] = {
-    "families": [("faults", 400, 8000), ("bridge", 800, 30000)],
+    "families": [("faults", 400, 8000), ("bridge", 800, 30000), ("snap", 150, 3000)],
     "rule": "valid scripts seeded with every fault class (ill-typed operands, unknown variables/functions/nodes/commands, "
             "null, value-less functions, failing functions, dice/random_range/round_places out of domain incl. 0, "
             "negatives, 1e30, NaN) at random depths; only the outcome class of each Next is compared (element/end/"
             "error/waiting/panic). Non-trivial: nesting depth >= 1 and >= 4 Next calls. Scripts on which the model "
             "runs out of fuel (non-yielding jump cycles, known finding D7) are not executed. bridge: host functions and "
             "commands of every accepted signature (error results by value - structs and value kinds with an Error method - "
-            "included) called with fitting and unfitting arguments: a fault of the call is an error, never a panic.",
+            "included) called with fitting and unfitting arguments: a fault of the call is an error, never a panic. snap: "
+            "snapshots written by the host (maps it has nothing to put in left nil) restored into runners in any state, "
+            "then driven on.",
     "assumptions": ["choices are in range whenever an option group is waiting (adaptive generation)"],
 }
 PROPERTIES["C07"] = {
@@ -1302,7 +1304,7 @@ def render_view(o):
     return obs_view(o, keep_tags=True, keep_attrs=False, keep_disabled=True)
 
 
-_mk("render", runner_projection(render_view), runner_features(0, 3, need=["line"]))
+_mk("render", runner_projection(render_view, with_log=True), runner_features(0, 3, need=["line"]))
 PROPERTIES["C04"] = {
     "families": [("textline", 4000, 150000), ("escapes", 3000, 100000), ("render", 250, 4000), ("fmt", 150, 20000)],
     "rule": "textline: one source line (printable ASCII, punctuation, multi-byte and astral characters; every escapable "
@@ -1313,7 +1315,7 @@ PROPERTIES["C04"] = {
             "'}' either way, single '<' and '/', ']' outside markers, escaped backslashes before brackets, hashtags, "
             "comments); the runner must return exactly the resolved, trimmed text and the tags; the model (TextMode "
             "transcription + markup phase) must predict the same. render: programs dominated by lines and option "
-            "groups with inline expressions of every type and conditions; text, tags and Disabled compared. fmt: display "
+            "groups with inline expressions of every type and conditions; text, tags, Disabled and the host's call log (the order in which the texts and conditions of a group are evaluated) compared. fmt: display "
             "form of doubles. Non-trivial: source line of >= 4 characters / a line statement present.",
     "assumptions": [],
 }
